@@ -1,4 +1,4 @@
-import QuillModel.Backend.Sched
+import QuillModel.Backend.Ops
 import QuillModel.Drivers.Util
 /-!
 Correspondence driver for the backend model: replays the script executed by `harness/h2_backend.cpp` on
@@ -26,180 +26,48 @@ def showEv : Ev → String
 def takeEvents (s : BSt) : BSt × String :=
   ({ s with out := [] }, " ".intercalate (s.out.reverse.map showEv))
 
-def idleActor (s : BSt) (a : Nat) : Bool :=
-  match s.actor a with
-  | some x => (match x.pend with | .none => true | _ => false)
-  | none => false
-
-/-- current usable logger object of `gid` -/
-def loggerOf (s : BSt) (gid : Nat) : Option Nat :=
-  match s.names.find? (·.1 = gid) with
-  | some (_, i) => if (s.lgOf i).valid ∧ !(s.lgOf i).erased then some i else none
-  | none => none
-
-def dropName (s : BSt) (gid : Nat) : BSt := { s with names := s.names.filter (·.1 ≠ gid) }
-
-/-- is some live actor parked inside a public call through logger `gid`? (then `remove_logger` is outside its contract) -/
-def loggerBusy (s : BSt) (gid : Nat) : Bool :=
-  s.actors.any (fun x => x.alive && x.inCall == some gid && (match x.pend with | .none => false | _ => true))
-
-/-- bookkeeping after an operation of actor `a` through logger `gid`: remember the logger while the call is parked -/
-def noteCall (r : BSt × String) (a gid : Nat) : BSt × String :=
-  let parked := match (r.1.actor a).map (·.pend) with | some .none => false | some _ => true | none => false
-  (r.1.setActor a (fun x => { x with inCall := if parked then some gid else none }), r.2)
-
-/-- frontend operations (everything except `P` and `X`) -/
-def execFront0 (s : BSt) (w : List String) : BSt × String :=
-  match w with
-  | ["K", dt] => ({ s with now := s.now + nat! dt }, "ok")
-  | ["T", a, "start"] =>
-    let a := nat! a
-    if (s.actor a).isSome then (s, "noop") else ({ s with actors := s.actors ++ [{ id := a }] }, "ok")
-  | ["T", a, "exit"] =>
-    let a := nat! a
-    if !idleActor s a then (s, "noop") else
-    let ctx := (s.actor a).bind (·.ctx)
-    let s1 := s.setActor a (fun x => { x with alive := false })
-    match ctx with
-    | some i => ({ s1.setTh i (fun t => { t with valid := false }) with
-                   invalidCnt := counterMod s.cfg (s.invalidCnt + 1) }, "ok")
-    | none => (s1, "ok")
-  | ["R", a] => resume s (nat! a)
-  | ["ST", a] =>
-    if idleActor s (nat! a) then (s.setActor (nat! a) (fun x => { x with stallArmed := true }), "ok") else (s, "noop")
-  | [op, a, g, p3, p4] =>
-    let a := nat! a
-    if op == "L" || op == "LS" then
-      match loggerOf s (nat! g), idleActor s a with
-      | some lgi, true =>
-        let id := s.nextId
-        let s1 := { s with nextId := id + 1 }
-        let lvl := nat! p3
-        if shouldLog lvl (s1.lgOf lgi).level then
-          frontCall s1 a lgi .log lvl (nat! p4) (if op == "L" then 0 else 5) (op == "L") id
-        else (s1, if op == "L" then s!"id={id} skip ev=0 bytes=0" else s!"id={id} ev=0 bytes=0")
-      | _, _ => (s, "noop")
-    else if op == "IB" then
-      match loggerOf s (nat! g), idleActor s a with
-      | some lgi, true => frontCall s a lgi (.initBt (nat! p3) (nat! p4)) 8 0 2 false 0
-      | _, _ => (s, "noop")
-    else (s, "bad-op")
-  | ["LN", a, g, len] =>
-    let a := nat! a
-    match loggerOf s (nat! g), idleActor s a with
-    | some lgi, true =>
-      let id := s.nextId
-      let s1 := { s with nextId := id + 1 }
-      if shouldLog 4 (s1.lgOf lgi).level then frontCall s1 a lgi .log 4 (nat! len) 5 false id true
-      else (s1, s!"id={id} ev=0 bytes=0")
-    | _, _ => (s, "noop")
-  | ["LB", a, g, len] =>
-    let a := nat! a
-    match loggerOf s (nat! g), idleActor s a with
-    | some lgi, true =>
-      let id := s.nextId
-      let s1 := { s with nextId := id + 1 }
-      if shouldLog 9 (s1.lgOf lgi).level then frontCall s1 a lgi .log 9 (nat! len) 5 false id
-      else (s1, s!"id={id} ev=0 bytes=0")
-    | _, _ => (s, "noop")
-  | [op, a, g] =>
-    let a := nat! a
-    let gid := nat! g
-    if op == "FB" || op == "F" || op == "RB" || op == "RL" then
-      match loggerOf s gid, idleActor s a with
-      | some lgi, true =>
-        if op == "FB" then frontCall s a lgi .flushBt 8 0 3 false 0
-        else if op == "F" then
-          let f := s.nextFlag
-          frontCall { s with nextFlag := f + 1 } a lgi (.flush f) 8 0 1 false 0
-        else if loggerBusy s gid then (s, "noop")
-        else if op == "RB" then
-          let f := s.nextFlag
-          frontCall (dropName { s with nextFlag := f + 1 } gid) a lgi (.removal f) 8 0 4 false 0
-        else
-          let s1 := (dropName s gid).setLg lgi (fun l => { l with valid := false })
-          ({ s1 with hasInvalidLoggers := true }, "done")
-      | _, _ => (s, "noop")
-    else if op == "SL" then
-      -- SL g lvl  (here a = g, g = lvl)
-      match loggerOf s a with
-      | some lgi => (s.setLg lgi (fun l => { l with level := gid }), "ok")
-      | none => (s, "noop")
-    else if op == "SS" then
-      if (s.sinks.any (fun k => k.sid = a ∧ k.alive)) then (s.setSink a (fun k => { k with lvl := gid }), "ok") else (s, "noop")
-    else (s, "bad-op")
-  | ["CL", a, g, sids] =>
-    let a := nat! a
-    let gid := nat! g
-    let sl := natList sids
-    if !idleActor s a ∨ loggerBusy s gid ∨ sl.any (fun sid => !(s.sinks.any (fun k => k.sid = sid ∧ k.alive))) then (s, "noop") else
-    let existing := (List.range s.lgs.length).find? (fun i => (s.lgOf i).gid = gid ∧ !(s.lgOf i).erased)
-    match existing with
-    | some i =>
-      let l := s.lgOf i
-      if !l.valid then (s, "noop") else   -- outside the contract until the backend has erased the old logger
-      ({ dropName s gid with names := (dropName s gid).names ++ [(gid, i)] },
-       s!"ok valid=1 nsinks={l.sinks.length}")
-    | none =>
-      let i := s.lgs.length
-      ({ dropName s gid with lgs := s.lgs ++ [{ gid := gid, sinks := sl }], names := (dropName s gid).names ++ [(gid, i)] },
-       s!"ok valid=1 nsinks={sl.length}")
-  | ["DS", sid] =>
-    let sid := nat! sid
-    (reapSinks (s.setSink sid (fun k => { k with userRef := false })) [sid], "ok")
-  | ["Q"] =>
-    (s, s!"contexts={s.registry.length} loggers={(s.lgs.filter (fun l => !l.erased)).length}")
-  | _ => (s, "bad-op")
-
-def execFront (s : BSt) (w : List String) : BSt × String :=
-  let r := execFront0 s w
-  if r.2 == "noop" || r.2 == "bad-op" then r else
-  match w with
-  | ["R", a] =>
-    let a := nat! a
-    let parked := match (r.1.actor a).map (·.pend) with | some .none => false | some _ => true | none => false
-    if parked then r else (r.1.setActor a (fun x => { x with inCall := none }), r.2)
-  | [op, a, g, _, _] => if op == "L" || op == "LS" || op == "IB" then noteCall r (nat! a) (nat! g) else r
-  | ["LB", a, g, _] => noteCall r (nat! a) (nat! g)
-  | ["LN", a, g, _] => noteCall r (nat! a) (nat! g)
-  | [op, a, g] => if op == "FB" || op == "F" || op == "RB" then noteCall r (nat! a) (nat! g) else r
-  | _ => r
-
-/-- the injection runner handed to `poll` -/
-def inj (s : BSt) (site : Nat) : BSt :=
-  let k := ((s.siteCnt.find? (·.1 = site)).map (·.2)).getD 0 + 1
-  let s1 := { s with siteCnt := (site, k) :: s.siteCnt.filter (·.1 ≠ site) }
-  match s1.inject.find? (fun x => x.1 = site ∧ x.2.1 = k) with
-  | none => s1
-  | some (_, _, ops) =>
-    ops.foldl (fun s w =>
-      let r := match w with
-        | "P" :: _ => (s, "noop")
-        | "X" :: _ => (s, "noop")
-        | _ => execFront s w
-      r.1.emit (.inj site k ("_".intercalate w) r.2)) s1
+/-- parse one operation (words of a script line, or of an injected `_`-separated operation) -/
+def parseFOp : List String → Option FOp
+  | ["K", dt] => some (.tick (nat! dt))
+  | ["T", a, "start"] => some (.tstart (nat! a))
+  | ["T", a, "exit"] => some (.texit (nat! a))
+  | ["R", a] => some (.resume (nat! a))
+  | ["ST", a] => some (.armStall (nat! a))
+  | ["L", a, g, lvl, len] => some (.log (nat! a) (nat! g) (nat! lvl) (nat! len) true)
+  | ["LS", a, g, lvl, len] => some (.log (nat! a) (nat! g) (nat! lvl) (nat! len) false)
+  | ["LN", a, g, len] => some (.logNamed (nat! a) (nat! g) (nat! len))
+  | ["LB", a, g, len] => some (.logBt (nat! a) (nat! g) (nat! len))
+  | ["IB", a, g, cap, fl] => some (.initBt (nat! a) (nat! g) (nat! cap) (nat! fl))
+  | ["FB", a, g] => some (.flushBt (nat! a) (nat! g))
+  | ["F", a, g] => some (.flush (nat! a) (nat! g))
+  | ["RB", a, g] => some (.removeBlocking (nat! a) (nat! g))
+  | ["RL", a, g] => some (.remove (nat! a) (nat! g))
+  | ["CL", a, g, sids] => some (.create (nat! a) (nat! g) (natList sids))
+  | ["SL", g, lvl] => some (.setLevel (nat! g) (nat! lvl))
+  | ["SS", sid, lvl] => some (.setSinkLevel (nat! sid) (nat! lvl))
+  | ["DS", sid] => some (.dropSink (nat! sid))
+  | ["Q"] => some .query
+  | _ => none
 
 /-- `@site.k=op_with_underscores,op…` -/
-def parseInject (w : String) : Option (Nat × Nat × List (List String)) :=
+def parseInject (w : String) : Option (Nat × Nat × List FOp) :=
   if !w.startsWith "@" then none else
   match (String.ofList (w.toList.drop 1)).splitOn "=" with
   | [sk, ops] =>
     match sk.splitOn "." with
-    | [a, b] => some (nat! a, nat! b, (ops.splitOn ",").map (fun o => o.splitOn "_"))
+    | [a, b] => some (nat! a, nat! b, (ops.splitOn ",").filterMap (fun o => parseFOp (o.splitOn "_")))
     | _ => none
   | _ => none
 
+def parseOp : List String → Option Backend.Op
+  | "P" :: rest => some (.poll (rest.filterMap parseInject))
+  | ["X"] => some .exit
+  | w => (parseFOp w).map .front
+
 def exec (s : BSt) (w : List String) : BSt × String :=
-  match w with
-  | "P" :: rest =>
-    if s.backendGone then (s, "noop") else
-    let s1 := { s with siteCnt := [], inject := rest.filterMap parseInject }
-    ({ poll inj s1 with inject := [] }, "ev")
-  | ["X"] =>
-    if s.backendGone then (s, "noop") else
-    let s1 := { s with siteCnt := [], inject := [] }
-    ({ exitLoop inj 1000 100000 s1 with backendGone := true }, "ev")
-  | _ => execFront s w
+  match parseOp w with
+  | some op => applyOp s op
+  | none => (s, "bad-op")
 
 structure Setup where
   grace : Nat := 0
